@@ -597,6 +597,12 @@ pub fn check_outputs(model: &Model, t: &tera::Tera, i: usize, stats: &mut Stats,
 // ------------------------------------------------------------------------------------------------
 
 fn node_name(i: usize, rng: &Rng, prefixes: &[String]) -> String {
+    // now and then a name that merely ENDS WITH (or starts with) another node's name — `0/g2`,
+    // `g2x` — without being related to it: names are compared by equality and nothing else
+    if i > 0 && rng.chance(1, 8) {
+        let j = rng.below(i);
+        return if rng.chance(2, 3) { format!("0/g{}", j) } else { format!("g{}x", j) };
+    }
     let base = format!("g{}", i);
     if !prefixes.is_empty() && rng.chance(1, 3) {
         format!("{}{}", rng.pick(prefixes), base)
@@ -637,7 +643,11 @@ pub fn generate(seed: u64, tier: &str, property: &str) -> RegScenario {
     let n = if deep { rng.range(8, if tier == "thorough" { 40 } else { 33 }) } else { rng.range(2, 8) };
     let mut specs: Vec<GSpec> = Vec::new();
     for i in 0..n {
-        specs.push(GSpec { name: node_name(i, &rng, &prefixes), extends: None, incs: vec![], super_call: rng.chance(1, 2) });
+        let mut nm = node_name(i, &rng, &prefixes);
+        if specs.iter().any(|s: &GSpec| s.name == nm) {
+            nm = format!("g{}", i);
+        }
+        specs.push(GSpec { name: nm, extends: None, incs: vec![], super_call: rng.chance(1, 2) });
     }
     let names: Vec<String> = specs.iter().map(|s| s.name.clone()).collect();
     match shape {
